@@ -97,3 +97,37 @@ def run(ctx):
         ctx.case(("cfg", repr(sorted(cfg.items()))), nontrivial,
                  sample={k: cfg[k] for k in ("joint", "N", "W", "K", "lens")} if completed <= 4 else None)
     ctx.extra["runs_completed"] = completed
+
+    # ---------------- call SEQUENCES in one process: the same (value-equal, freshly generated) series labelled at a
+    # series of window sizes (downward and upward sweeps, repeats), and a joint call followed by a single-series call
+    # on one of its members at a narrower window — every call must still return one label per input row
+    if ctx.replay is None:
+        for rep in range(3 if ctx.quick() else 30):
+            base = tu.gen_config(ctx.rng, joint=False)
+            base.update({"limit": 2, "K": 2, "N": ctx.rng.choice([1, 2])})
+            ws = ctx.rng.choice([[5, 3, 3, 2, 6], [4, 1, 2, 7], [6, 5, 4, 3, 2, 1], [2, 2, 5, 4]])
+            base["lens"] = [max(ws) + ctx.rng.randint(40, 70)]
+            for W in ws:
+                cfg = dict(base, W=W)
+                res, _tr, err, series = tu.execute(cfg, trace=False)
+                ctx.count("sequence_calls")
+                if err is None:
+                    check_result_shape(ctx, dict(cfg, sequence=ws), res, series)
+            jc = tu.gen_config(ctx.rng, joint=True)
+            jc.update({"limit": 2, "K": 2, "W": 4})
+            jc["lens"] = [4 + ctx.rng.randint(30, 50) for _ in range(2)]
+            res, _tr, err, series = tu.execute(jc, trace=False)
+            if err is None:
+                check_result_shape(ctx, jc, res, series)
+                for W2 in (2, 4, 3):
+                    import warnings
+                    with warnings.catch_warnings():
+                        warnings.simplefilter("ignore")
+                        try:
+                            tu.seed_all(jc["seed"])
+                            r2 = tu.run_single(np.array(series[-1], copy=True), **dict(tu.config_kwargs(jc), window_size=W2))
+                        except Exception:
+                            continue
+                    check_result_shape(ctx, dict(jc, joint=False, W=W2, lens=[jc["lens"][-1]], after_joint=True), r2, [series[-1]])
+                    ctx.count("sequence_calls")
+            ctx.case(("sequence", rep, tuple(ws)), nontrivial=True)
